@@ -10,6 +10,8 @@ CONSTANTS
   Compiled = {"x1", "x2"}
   MaxBlocks = 1000000
   MaxDiff = 6
+  ReadFaults = TRUE
+  Bug = "none"
   MBTLen = 24
 INIT MBTInit
 NEXT MBTNext
